@@ -9,8 +9,8 @@ SPEC = {
     "lean_modules": ["TrustVerif.Props.C20"],
     "tiers": {
         # ops = upper bound of the random part of a script; stress_attempts = cycles per stress case
-        "quick": {"cases": 150, "extra": {"ops": 36, "stress_attempts": 300}},
-        "thorough": {"cases": 5000, "extra": {"ops": 60, "stress_attempts": 1500}},
+        "quick": {"cases": 150, "extra": {"ops": 36, "stress_attempts": 300, "stress_ops": 80}},
+        "thorough": {"cases": 5000, "extra": {"ops": 60, "stress_attempts": 2000, "stress_ops": 400}},
     },
     "timeout": 7200,
     # Scripted and API cases: the compared status (position of every thread, published state, cycles
